@@ -68,6 +68,8 @@ LONG_HELPS = [
     'quotes "inside" the \\ help \\" text with back\\slashes " and more " quotes \\ to make the escaped form longer than the raw one',
     "w" * 120, "   " + "lead and trail blanks " * 5 + "   ", " " * 70, "two\nlines and\n\nmore lines of help text that go on and on and on and on and on",
     "short-ish help", "", "x", "$var in help ${not} a variable", "semi;colon {brace} #hash = equals ! bang",
+    # strings that read back as the None / Auto objects unless printed in quotes (repaired in /repo 9a822a9), and look-alikes
+    "None", "Auto", "none", "AUTO", "nONE", "None ", "Nonex", "True", "123", "a.b", "_x1",
 ]
 RICH_DEF_ATTRS = [("type", t, "x") for t in [
     "int(value_min=0)", "int(value_min=-3, value_max=9, allow_none=False)", "int(allow_none=True)", "float(value_max=2.5)", "float",
